@@ -81,7 +81,8 @@ theorem cmdKey?_cmdOfPut (c : PutCmd) : cmdKey? (cmdOfPut c) = some c.k := by
 theorem client_tags_other {b b' : BState} {i : Nat} {pc pc' : CPc} (ht : CTrans b i b')
     (hpc : b.cl[i]? = some pc) (hpc' : b'.cl[i]? = some pc')
     (h1 : ∀ r, pc ≠ .start r) (h2 : ∀ k v w ttl rm, pc ≠ .upUpdate k v w ttl rm) :
-    (∀ k, onK k pc' = true → onK k pc = true) ∧ (shutPath pc' = true → shutPath pc = true) := by
+    (∀ k, onK k pc' = true → onK k pc = true) ∧ (shutPath pc' = true → shutPath pc = true) ∧
+    (pc' = .send .shutdown → pc = .send .shutdown) := by
   have hne : ∀ {x : CPc}, b.cl[i]? = some x → pc = x := fun hx => Option.some.inj (hpc.symm.trans hx)
   cases ht
   case startPut k v w ttl hpc0 _ => exact absurd (hne hpc0) (h1 _)
@@ -99,8 +100,9 @@ theorem client_tags_other {b b' : BState} {i : Nat} {pc pc' : CPc} (ht : CTrans 
     have := hne hpc0; subst this
     have := pc_of_set hpc'; subst this
     clear hg
-    refine ⟨fun k hk => ?_, fun _ => shutPath_of_afterCas hac0⟩
-    cases pc' <;> simp [CPc.afterCas, onK] at hac hk
+    refine ⟨fun k hk => ?_, fun _ => shutPath_of_afterCas hac0, fun e => ?_⟩
+    · cases pc' <;> simp [CPc.afterCas, onK] at hac hk
+    · subst e; simp [CPc.afterCas] at hac
   case mgetStep pc0 pc1 g' hpc0 _ hm hg =>
     have := pc_of_set hpc'; subst this
     clear hg
@@ -125,7 +127,8 @@ theorem client_tags_other {b b' : BState} {i : Nat} {pc pc' : CPc} (ht : CTrans 
     the position before it was -/
 theorem client_tags {b b' : BState} {i : Nat} {o o' : Oracle} {pc pc' : CPc}
     (hs : clientAct b i o = .ok (b', o')) (hpc : b.cl[i]? = some pc) (hpc' : b'.cl[i]? = some pc') :
-    (∀ k, onK k pc' = true → onK k pc = true) ∧ (shutPath pc' = true → shutPath pc = true) := by
+    (∀ k, onK k pc' = true → onK k pc = true) ∧ (shutPath pc' = true → shutPath pc = true) ∧
+    (pc' = .send .shutdown → pc = .send .shutdown) := by
   by_cases h1 : ∃ r, pc = .start r
   · obtain ⟨r, rfl⟩ := h1
     unfold clientAct at hs
@@ -289,7 +292,7 @@ theorem env_step {i k : Nat} {b b' : BState} {a : Act} {o o' : Oracle} (he : Env
     have hsp : shutPath pc = false := he.noShut j pc hpc
     have hlt : j < b.cl.length := lt_of_getElem?_some hpc
     have hpc' : b'.cl[j]? = some pc' := by rw [hcl]; simp [hlt]
-    obtain ⟨htk, hts⟩ := client_tags hs hpc hpc'
+    obtain ⟨htk, hts, _⟩ := client_tags hs hpc hpc'
     refine ⟨?_, ?_, ?_, ?_, ?_⟩
     · rcases ctrans_shutting_eq ht with h | h
       · rw [h]; exact he.flag
@@ -568,53 +571,55 @@ theorem absent_step {k : Nat} {b b' : BState} {a : Act} {o o' : Oracle} (hs : st
 
 /-! ## 7  what an action of a thread other than the worker does -/
 
-/-- One action of a thread other than the worker, taken in the environment by a client that is not inside a put /
-    upsert / delete of `k`: the worker stands still; the queue grows, if at all, by a command that does not write `k`;
-    no acknowledgement cell changes; no key id is charged; no id below the counter becomes fresh. -/
-structure OtherEff (k : Nat) (b b' : BState) : Prop where
+/-- One action of a thread other than the worker, taken in the environment: the worker stands still; the queue grows by
+    `x` (nothing, or the one command a client sends); no acknowledgement cell changes; no key id is charged; no id below
+    the counter becomes fresh. -/
+structure OtherEff (x : List (Cmd × Option Nat)) (b b' : BState) : Prop where
   w : b'.w = b.w
-  queue : ∃ x, b'.g.queue = b.g.queue ++ x ∧ KFree k x
+  queue : b'.g.queue = b.g.queue ++ x
   acks : ∀ (h : Nat) (st : Status), b.g.acks[h]? = some st → b'.g.acks[h]? = some st
   kw : ∀ id wk, b'.g.adm.kw.get? id = some wk → b.g.adm.kw.get? id = some wk
   occLe : ∀ f, f < b.g.nextId → occ b' f ≤ occ b f
   nextLe : b.g.nextId ≤ b'.g.nextId
 
 theorem other_eff {i k : Nat} {b b' : BState} {a : Act} {o o' : Oracle} (he : Env i k b)
-    (hs : stepB b a o = .ok (b', o')) (ha : a ≠ .worker)
-    (hcl : ∀ j pc, a = .client j → b.cl[j]? = some pc → onK k pc = false) : OtherEff k b b' := by
+    (hs : stepB b a o = .ok (b', o')) (ha : a ≠ .worker) :
+    ∃ x, OtherEff x b b' ∧
+      (x = [] ∨ ∃ j cmd, a = .client j ∧ b.cl[j]? = some (.send cmd) ∧ x = [(cmd, some b.g.acks.length)] ∧
+        b'.g.acks = b.g.acks ++ [.pending]) := by
   cases a with
   | worker => exact absurd rfl ha
   | issue j r =>
     obtain ⟨hidle, rfl⟩ := stepB_issue_inv hs
     have hi : issue b j r = .ok (setClient b j (.start r)) := by simp [issue, hidle]
-    exact ⟨rfl, ⟨[], by simp [setClient], KFree.nil k⟩, fun _ _ h => h, fun _ _ h => h, fun f _ => issue_occ hi f,
-      Nat.le_refl _⟩
+    exact ⟨[], ⟨rfl, by simp [setClient], fun _ _ h => h, fun _ _ h => h, fun f _ => issue_occ hi f, Nat.le_refl _⟩,
+      Or.inl rfl⟩
   | client j =>
     simp only [stepB] at hs
     have ht := clientAct_trans hs
-    obtain ⟨pc, pc', hpc, _, _, _⟩ := ctrans_cl ht
-    refine ⟨(ctrans_frame ht).1, ?_, ?_, ?_, fun f hf => ctrans_occ ht f hf, ctrans_nextId ht⟩
-    · rcases env_client_queue he hs with hq | ⟨cmd, hsend, _, hq, _⟩
-      · exact ⟨[], by simp [hq], KFree.nil k⟩
-      · refine ⟨_, hq, KFree.one ?_⟩
-        have := hcl j _ rfl hsend
-        simpa [onK] using this
-    · intro h st hst
+    have hacks : ∀ (h : Nat) (st : Status), b.g.acks[h]? = some st → b'.g.acks[h]? = some st := by
+      intro h st hst
       rcases ctrans_cstep ht with ⟨_, hacks⟩ | ⟨_, _, hacks⟩ | ⟨_, _, _, hacks⟩ | ⟨_, _, _, hacks⟩
       · rw [hacks]; exact hst
       · rw [hacks]; exact getElem?_append_some _ hst
       · rw [hacks]; exact getElem?_append_some _ hst
       · rw [hacks]; exact hst
-    · intro id wk hg
+    have hkw : ∀ id wk, b'.g.adm.kw.get? id = some wk → b.g.adm.kw.get? id = some wk := by
+      intro id wk hg
       rcases ctrans_adm ht with h1 | ⟨pc0, hpc0, hac, _⟩
       · rw [h1] at hg; exact hg
       · have := he.noShut j pc0 hpc0
         rw [shutPath_of_afterCas hac] at this; cases this
+    rcases env_client_queue he hs with hq | ⟨cmd, hsend, _, hq, hpend⟩
+    · exact ⟨[], ⟨(ctrans_frame ht).1, by simp [hq], hacks, hkw, fun f hf => ctrans_occ ht f hf, ctrans_nextId ht⟩,
+        Or.inl rfl⟩
+    · exact ⟨_, ⟨(ctrans_frame ht).1, hq, hacks, hkw, fun f hf => ctrans_occ ht f hf, ctrans_nextId ht⟩,
+        Or.inr ⟨j, cmd, rfl, hsend, rfl, hpend⟩⟩
   | sweeper v =>
     have ht := sweeperAct_trans (stepB_sweeper_inv hs)
     obtain ⟨hw, hcl', hq, hn, _⟩ := strans_frame ht
-    refine ⟨hw, ⟨[], by simp [hq], KFree.nil k⟩, ?_, fun id wk hg => strans_kw ht id wk hg,
-      fun f _ => Nat.le_of_eq (occ_congr hq hcl' hw f), Nat.le_of_eq hn.symm⟩
+    refine ⟨[], ⟨hw, by simp [hq], ?_, fun id wk hg => strans_kw ht id wk hg,
+      fun f _ => Nat.le_of_eq (occ_congr hq hcl' hw f), Nat.le_of_eq hn.symm⟩, Or.inl rfl⟩
     cases stepB_bstep hs with
     | worker ha' => cases ha'
     | client i' ha' => cases ha'
@@ -622,14 +627,25 @@ theorem other_eff {i k : Nat} {b b' : BState} {a : Act} {o o' : Oracle} (he : En
   | consumer =>
     obtain ⟨g', rfl, hg⟩ := stepB_consumer_inv hs
     have hq : g'.queue = b.g.queue := by rw [hg]
-    refine ⟨rfl, ⟨[], by simp [hq], KFree.nil k⟩, ?_, ?_,
-      fun f _ => Nat.le_of_eq (occ_congr (b' := { b with g := g' }) (b := b) hq rfl rfl f), ?_⟩
+    refine ⟨[], ⟨rfl, by simp [hq], ?_, ?_,
+      fun f _ => Nat.le_of_eq (occ_congr (b' := { b with g := g' }) (b := b) hq rfl rfl f), ?_⟩, Or.inl rfl⟩
     · intro h st hst; show g'.acks[h]? = some st; rw [hg]; exact hst
     · intro id wk hk; have : g'.adm.kw.get? id = some wk := hk; rw [hg] at this; exact this
     · show b.g.nextId ≤ g'.nextId; rw [hg]; exact Nat.le_refl _
   | advance d =>
     rw [stepB_advance_inv hs]
-    exact ⟨rfl, ⟨[], by simp, KFree.nil k⟩, fun _ _ h => h, fun _ _ h => h, fun f _ => Nat.le_refl _, Nat.le_refl _⟩
+    exact ⟨[], ⟨rfl, by simp, fun _ _ h => h, fun _ _ h => h, fun f _ => Nat.le_refl _, Nat.le_refl _⟩, Or.inl rfl⟩
+
+/-- … by a client that is not inside a put / upsert / delete of `k`: what the queue grows by does not write `k` -/
+theorem other_eff_kfree {i k : Nat} {b b' : BState} {a : Act} {o o' : Oracle} (he : Env i k b)
+    (hs : stepB b a o = .ok (b', o')) (ha : a ≠ .worker)
+    (hcl : ∀ j pc, a = .client j → b.cl[j]? = some pc → onK k pc = false) :
+    ∃ x, OtherEff x b b' ∧ KFree k x := by
+  obtain ⟨x, ho, rfl | ⟨j, cmd, rfl, hsend, rfl, _⟩⟩ := other_eff he hs ha
+  · exact ⟨[], ho, KFree.nil k⟩
+  · refine ⟨_, ho, KFree.one ?_⟩
+    have := hcl j _ rfl hsend
+    simpa [onK] using this
 
 /-! ## 8  the worker inside ONE put command -/
 
@@ -659,7 +675,8 @@ theorem contains_false_iff {m : AMap Nat Entry} {k : Nat} : m.contains k = false
 
 /-- how a put command ends (the worker back at `recv`): the answer, and what the store held / holds for the key -/
 inductive PutEnd (b b' : BState) (c : PutCmd) : Status → Prop where
-  | existsK (e : Entry) : b.g.store.get? c.k = some e → b'.g.store = b.g.store → PutEnd b b' c (.rejected .keyAlreadyExists)
+  | existsK (e : Entry) : b.g.store.get? c.k = some e → b'.g.store = b.g.store → b.w.pendId? = some c.id →
+      PutEnd b b' c (.rejected .keyAlreadyExists)
   | tooHeavy : b.g.store.get? c.k = none → b'.g.store = b.g.store → b.w.pendId? = some c.id →
       PutEnd b b' c (.rejected .tooHeavy)
   | noSpace : b.w.applying? = some c → b'.g.store = b.g.store → b.w.pendId? = some c.id →
@@ -676,7 +693,7 @@ theorem put_complete {b b' : BState} {o o' : Oracle} {c : PutCmd} (hs : workerAc
   by_cases hp : b.w = .present c
   · obtain ⟨_, ⟨hcon, rfl⟩ | ⟨hcon, _, rfl⟩ | ⟨_, _, rfl⟩⟩ := ent_workerAct_present hp hs
     · obtain ⟨e, he⟩ := contains_iff.mp hcon
-      exact ⟨rfl, rfl, rfl, rfl, _, rfl, .existsK e he rfl⟩
+      exact ⟨rfl, rfl, rfl, rfl, _, rfl, .existsK e he rfl (by rw [hp]; rfl)⟩
     · exact ⟨rfl, rfl, rfl, rfl, _, rfl, .tooHeavy (contains_false_iff.mp hcon) rfl (by rw [hp]; rfl)⟩
     · cases hr
   · have ht := workerAct_trans hs
@@ -850,8 +867,40 @@ theorem woff_storePut {k : Nat} {w : WPc} (h : WOff k w) : ∀ c, w = .storePut 
   fun c hw => h.1 c (by rw [hw]; rfl)
 
 theorem PutDone.other {k h₁ : Nat} {c₁ : PutCmd} {H : List (BState × Act)} {pres : Bool} {lo : Nat} {b b' : BState}
-    (y : BState × Act) (hp : PutDone k h₁ c₁ H pres lo b) (ho : OtherEff k b b') : PutDone k h₁ c₁ (y :: H) pres lo b' :=
+    {x : List (Cmd × Option Nat)} (y : BState × Act) (hp : PutDone k h₁ c₁ H pres lo b) (ho : OtherEff x b b') :
+    PutDone k h₁ c₁ (y :: H) pres lo b' :=
   hp.lift y (fun st h _ => ho.acks h₁ st h) (fun hk wk h => hk wk (ho.kw _ wk h)) (ho.occLe _ hp.idlt) ho.nextLe
+
+/-- EARLY under an action of a thread other than the worker by which the queue grows by `x`; `ds ↦ ds'`: either the
+    `Delete(k)` is not what is sent (`x` does not write `k`), or it is exactly what is sent -/
+theorem pde_other_gen {i k h₁ : Nat} {c₁ : PutCmd} {H : List (BState × Act)} {ds ds' : Option Nat} {b b' : BState}
+    {a : Act} {o o' : Oracle} {x : List (Cmd × Option Nat)} (he : Env i k b) (hs : stepB b a o = .ok (b', o'))
+    (ha : a ≠ .worker) (ho : OtherEff x b b') (hrx : ∀ rest, RestOk k ds rest → RestOk k ds' (rest ++ x))
+    (hdx : ∀ h₂, ds = some h₂ → ds' = some h₂ ∧ KFree k x) (hi : PDE k h₁ c₁ H ds b) :
+    PDE k h₁ c₁ ((b, a) :: H) ds' b' := by
+  have hqx := ho.queue
+  have hnw : a = .worker → ∀ hh, b.w ≠ .delStore k hh := fun e => absurd e ha
+  cases hi with
+  | pq qa rest hq hrest =>
+    exact .pq qa (rest ++ x) (by rw [hqx, hq]; simp) (hrx _ hrest)
+  | pw hc hrest httl =>
+    refine .pw (by rw [ho.w]; exact hc) (by rw [hqx]; exact hrx _ hrest) ?_
+    intro e hw
+    rw [ho.w] at hw
+    obtain ⟨lo, h1, h2, h3, h4⟩ := httl e hw
+    exact ⟨lo, by simp only [List.length_cons]; omega, present_step hs h1 hnw (env_no_clear he) h2, putPoint_mono _ h3,
+      fun wk h => h4 wk (ho.kw _ wk h)⟩
+  | pd pres lo hp hpres hoff hrest =>
+    refine .pd pres lo (hp.other _ ho) ?_ (by rw [ho.w]; exact hoff) (by rw [hqx]; exact hrx _ hrest)
+    cases pres with
+    | true => exact present_step hs hp.lo hnw (env_no_clear he) hpres
+    | false => exact absent_step hs (woff_storePut hoff) hpres
+  | dw0 h₂ pres lo hds hp hpres hw hkf =>
+    obtain ⟨hds', hkx⟩ := hdx h₂ hds
+    refine .dw0 h₂ pres lo hds' (hp.other _ ho) ?_ (by rw [ho.w]; exact hw) (by rw [hqx]; exact hkf.append hkx)
+    cases pres with
+    | true => exact present_step hs hp.lo hnw (env_no_clear he) hpres
+    | false => exact absent_step hs (fun c hc => by rw [hw] at hc; cases hc) hpres
 
 /-- **EARLY is kept by every action of a thread other than the worker** (taken in the environment, by a client that
     is not inside a put / upsert / delete of `k`). -/
@@ -859,37 +908,16 @@ theorem pde_other {i k h₁ : Nat} {c₁ : PutCmd} {H : List (BState × Act)} {d
     {o o' : Oracle} (he : Env i k b) (hs : stepB b a o = .ok (b', o')) (ha : a ≠ .worker)
     (hcl : ∀ j pc, a = .client j → b.cl[j]? = some pc → onK k pc = false) (hi : PDE k h₁ c₁ H ds b) :
     PDE k h₁ c₁ ((b, a) :: H) ds b' := by
-  have ho := other_eff he hs ha hcl
-  obtain ⟨x, hqx, hkx⟩ := ho.queue
-  have hnw : a = .worker → ∀ hh, b.w ≠ .delStore k hh := fun e => absurd e ha
-  cases hi with
-  | pq qa rest hq hrest =>
-    exact .pq qa (rest ++ x) (by rw [hqx, hq]; simp) (hrest.append hkx)
-  | pw hc hrest httl =>
-    refine .pw (by rw [ho.w]; exact hc) (by rw [hqx]; exact hrest.append hkx) ?_
-    intro e hw
-    rw [ho.w] at hw
-    obtain ⟨lo, h1, h2, h3, h4⟩ := httl e hw
-    exact ⟨lo, by simp only [List.length_cons]; omega, present_step hs h1 hnw (env_no_clear he) h2, putPoint_mono _ h3,
-      fun wk h => h4 wk (ho.kw _ wk h)⟩
-  | pd pres lo hp hpres hoff hrest =>
-    refine .pd pres lo (hp.other _ ho) ?_ (by rw [ho.w]; exact hoff) (by rw [hqx]; exact hrest.append hkx)
-    cases pres with
-    | true => exact present_step hs hp.lo hnw (env_no_clear he) hpres
-    | false => exact absent_step hs (woff_storePut hoff) hpres
-  | dw0 h₂ pres lo hds hp hpres hw hkf =>
-    refine .dw0 h₂ pres lo hds (hp.other _ ho) ?_ (by rw [ho.w]; exact hw) (by rw [hqx]; exact hkf.append hkx)
-    cases pres with
-    | true => exact present_step hs hp.lo hnw (env_no_clear he) hpres
-    | false => exact absent_step hs (fun c hc => by rw [hw] at hc; cases hc) hpres
+  obtain ⟨x, ho, hkx⟩ := other_eff_kfree he hs ha hcl
+  exact pde_other_gen he hs ha ho (fun rest h => h.append hkx) (fun h₂ h => ⟨h, hkx⟩) hi
 
 /-- **LATE is kept by every action of a thread other than the worker.** -/
 theorem pdl_other {i k h₁ : Nat} {c₁ : PutCmd} {H : List (BState × Act)} {h₂ : Nat} {b b' : BState} {a : Act}
     {o o' : Oracle} (he : Env i k b) (hs : stepB b a o = .ok (b', o')) (ha : a ≠ .worker)
     (hcl : ∀ j pc, a = .client j → b.cl[j]? = some pc → onK k pc = false) (hi : PDL k h₁ c₁ H h₂ b) :
     PDL k h₁ c₁ ((b, a) :: H) h₂ b' := by
-  have ho := other_eff he hs ha hcl
-  obtain ⟨x, hqx, hkx⟩ := ho.queue
+  obtain ⟨x, ho, hkx⟩ := other_eff_kfree he hs ha hcl
+  have hqx := ho.queue
   cases hi with
   | dw1 lo d hp hd hlod hheld htail hkf hnone =>
     exact .dw1 lo d (hp.other _ ho) (hd.mono _) hlod (by rw [ho.w]; exact hheld) (by rw [ho.w]; exact htail)
@@ -901,6 +929,1179 @@ theorem pdl_other {i k h₁ : Nat} {c₁ : PutCmd} {H : List (BState × Act)} {h
     cases hg : b'.g.adm.kw.get? c₁.id with
     | none => rfl
     | some wk => rw [ho.kw _ wk hg] at hkw; cases hkw
+
+/-! ## 10  the worker's actions and the invariant -/
+
+theorem held_of_cmd {w : WPc} {c : PutCmd} (h : w.cmd? = some c) : w.held = c.h := by
+  cases w <;> simp only [WPc.cmd?, Option.some.injEq, reduceCtorEq] at h <;> subst h <;> rfl
+
+/-- a worker action from a position inside a command leaves the queue alone (unless the worker dies) -/
+theorem worker_busy_queue {b b' : BState} (ht : WTrans b b') (h1 : b.w ≠ .recv) (h2 : b.w ≠ .drain) (h3 : b'.w ≠ .dead) :
+    b'.g.queue = b.g.queue := by
+  cases wtrans_wstep ht with
+  | take _ _ _ _ _ hw => exact absurd hw h1
+  | takeShutdown _ _ _ _ hw => exact absurd hw h1
+  | takeDrain _ _ _ _ _ hw => exact absurd hw h2
+  | cont _ _ _ hq => exact hq
+  | complete _ _ _ hq => exact hq
+  | die _ hw => exact absurd hw h3
+
+theorem PutDone.worker {k h₁ : Nat} {c₁ : PutCmd} {H : List (BState × Act)} {pres : Bool} {lo : Nat} {b b' : BState}
+    {o o' : Oracle} (hp : PutDone k h₁ c₁ H pres lo b) (hh : HInv b) (hs : stepB b .worker o = .ok (b', o')) :
+    PutDone k h₁ c₁ ((b, .worker) :: H) pres lo b' := by
+  have ht := workerAct_trans (by simpa [stepB] using hs)
+  exact hp.lift _ (fun st h hne => (C11_layerB_acks_grow hh hs).2 h₁ st h hne)
+    (wtrans_kw_key ht (insert_ne_of_occ0 hp.occ0)) (wtrans_occ ht _) (Nat.le_of_eq (wtrans_nextId ht).symm)
+
+/-- one worker action from a position that is not aimed at `k`, and what the store holds for `k` -/
+theorem presAt_worker {i k lo : Nat} {H : List (BState × Act)} {pres : Bool} {b b' : BState} {o o' : Oracle}
+    (he : Env i k b) (hs : stepB b .worker o = .ok (b', o')) (hlo : lo ≤ H.length) (hoff : WOff k b.w)
+    (hp : PresAt H k lo b pres) : PresAt ((b, .worker) :: H) k lo b' pres := by
+  cases pres with
+  | true => exact present_step hs hlo (fun _ => hoff.2) (env_no_clear he) hp
+  | false => exact absent_step hs (woff_storePut hoff) hp
+
+/-- with the worker at rest: an id charged only for `k` is not charged when `k` is absent (`BBij`: charged ⇒ held) -/
+theorem kw_none_of_bij {b : BState} {k id : Nat} (hbij : BBij b) (hr : b.w = .recv)
+    (hkey : ∀ wk, b.g.adm.kw.get? id = some wk → wk.key = k) (hnone : b.g.store.get? k = none) :
+    b.g.adm.kw.get? id = none := by
+  cases h : b.g.adm.kw.get? id with
+  | none => rfl
+  | some wk =>
+    exfalso
+    rcases hbij.chargedHeld (by rw [hr]; simp) id wk h with ⟨e, he, _⟩ | ⟨c, hput, _⟩ | hdel
+    · rw [hkey wk h, hnone] at he; cases he
+    · rw [hr] at hput; simp [WPc.putting?] at hput
+    · rw [hr] at hdel; simp [WPc.deleting?] at hdel
+
+set_option linter.unusedSimpArgs false in
+theorem delTail_cont {b b' : BState} (ht : WTrans b b') (h : delTail b.w = true) (hb : b'.w.busy = true) :
+    delTail b'.w = true := by
+  cases ht
+  all_goals simp_all [delTail, WPc.busy, finishCmd, rejectCmd]
+
+set_option linter.unusedSimpArgs false in
+theorem delTail_complete {b b' : BState} (ht : WTrans b b') (h : delTail b.w = true) (hb : b'.w.busy = false)
+    (hd : b'.w ≠ .dead) :
+    b'.w = .recv ∧ b'.g.acks = setAck b.g.acks b.w.held .accepted ∧ b'.g.queue = b.g.queue ∧ b'.g.store = b.g.store := by
+  cases ht
+  all_goals simp_all [delTail, WPc.busy, WPc.held, finishCmd, rejectCmd, ttlDelete]
+
+theorem delTail_store {b b' : BState} (ht : WTrans b b') (h : delTail b.w = true) : b'.g.store = b.g.store :=
+  ent_wtrans_store_same ht (fun c hc => by rw [hc] at h; cases h) (fun k hh hc => by rw [hc] at h; cases h)
+    (fun c e s i wk hc => by rw [hc] at h; cases h)
+
+theorem present_same {H : List (BState × Act)} {k lo : Nat} {b b' : BState} (y : BState × Act)
+    (hst : b'.g.store = b.g.store) (hp : Present H k lo b) : Present (y :: H) k lo b' := by
+  rcases hp with ⟨e, he⟩ | h
+  · exact Or.inl ⟨e, by rw [hst]; exact he⟩
+  · exact Or.inr (h.mono y)
+
+theorem worker_done_recv {b b' : BState} (ht : WTrans b b') (h1 : b.w.busy = true) (h2 : ¬ b'.w.busy = true)
+    (h3 : b'.w ≠ .dead) : b'.w = .recv := by
+  cases wtrans_wstep ht with
+  | take _ _ _ _ _ hw => rw [hw] at h1; cases h1
+  | takeShutdown _ _ _ _ hw => rw [hw] at h1; cases h1
+  | takeDrain _ _ _ _ _ hw => rw [hw] at h1; cases h1
+  | cont _ hb => exact absurd hb h2
+  | complete _ _ hw => exact hw
+  | die _ hw => exact absurd hw h3
+
+theorem busy_of_cmd {w : WPc} {c : PutCmd} (h : w.cmd? = some c) : w.busy = true := by
+  cases w <;> simp_all [WPc.cmd?, WPc.busy]
+
+theorem busy_of_delTail {w : WPc} (h : delTail w = true) : w.busy = true := by
+  cases w <;> simp_all [delTail, WPc.busy]
+
+/-- **EARLY under a worker action**: it stays EARLY, or the action is the `store.remove` of the `Delete(k)` and it
+    becomes LATE. -/
+theorem pde_worker {i k h₁ : Nat} {c₁ : PutCmd} {H : List (BState × Act)} {ds : Option Nat} {b b' : BState}
+    {o o' : Oracle} (hck : c₁.k = k) (hch : c₁.h = some h₁) (he : Env i k b) (hb : BInv b) (hwa : WAbsent b)
+    (hh : HInv b) (hbij : BBij b) (hbij' : BBij b') (hs : stepB b .worker o = .ok (b', o')) (hd : b'.w ≠ .dead)
+    (hi : PDE k h₁ c₁ H ds b) :
+    PDE k h₁ c₁ ((b, .worker) :: H) ds b' ∨ ∃ h₂, ds = some h₂ ∧ PDL k h₁ c₁ ((b, .worker) :: H) h₂ b' := by
+  have hsw : workerAct b o = .ok (b', o') := hs
+  have ht := workerAct_trans hsw
+  cases hi with
+  | pq qa rest hq hrest =>
+    left
+    by_cases hrecv : b.w = .recv
+    · cases qa with
+      | nil =>
+        simp only [List.nil_append] at hq
+        have hb' := worker_recv hrecv hq (cmdOfPut_ne_shutdown c₁) hsw
+        have htw : takeW (cmdOfPut c₁) (some h₁) = .present c₁ := by rw [← hch]; exact takeW_cmdOfPut c₁
+        rw [htw] at hb'
+        subst hb'
+        exact .pw rfl hrest (fun e hw => by cases hw)
+      | cons x qa' =>
+        obtain ⟨cmd, hx⟩ := x
+        simp only [List.cons_append] at hq
+        have hne : cmd ≠ .shutdown := he.queue (cmd, hx) (by rw [hq]; exact List.mem_cons_self)
+        have hb' := worker_recv hrecv hq hne hsw
+        subst hb'
+        exact .pq qa' rest rfl hrest
+    · have hq' := worker_busy_queue ht hrecv he.drain hd
+      exact .pq qa rest (by rw [hq']; exact hq) hrest
+  | pw hc hrest httl =>
+    left
+    have hheld : b.w.held = some h₁ := by rw [held_of_cmd hc, hch]
+    have hbusy : b.w.busy = true := busy_of_cmd hc
+    have hrecv : b.w ≠ .recv := fun e => by rw [e] at hc; cases hc
+    have hq' := worker_busy_queue ht hrecv he.drain hd
+    by_cases hb' : b'.w.busy = true
+    · refine .pw (wtrans_cmd_cont ht hc hb') (by rw [hq']; exact hrest) ?_
+      intro e hw'
+      obtain ⟨hw, hadm, hst⟩ := wtrans_to_ttlPut ht hw'
+      obtain ⟨_, _, ⟨_, rfl⟩ | ⟨t, _, _, rfl⟩ | ⟨t, e', httl', hadd, rfl⟩⟩ := ent_workerAct_storePut hw hsw
+      · simp [finishCmd] at hw'
+      · cases hw'
+      · refine ⟨H.length, by simp, Or.inl ⟨_, by simp only []; rw [hck]; exact AMap.get?_set_same _ _ _⟩, ?_, ?_⟩
+        · exact ⟨(b, .worker), c₁.v, at_cons_self _ _, rfl, c₁, some e', hw, hck, rfl, rfl,
+            by simp [putExpiry, httl', hadd]⟩
+        · intro wk hg
+          obtain ⟨wk0, hg0, hk0⟩ := hbij.putCharged c₁ (by rw [hw]; rfl)
+          simp only [] at hg
+          rw [hg0] at hg; cases hg; rw [hk0, hck]
+    · have hr : b'.w = .recv := worker_done_recv ht hbusy hb' hd
+      obtain ⟨hq2, hcl2, hkw2, hn2, st, hacks, hend⟩ := put_complete hsw hc hr
+      obtain ⟨hocc0, hidlt⟩ := occ_after_complete hb hc hr hq2 hcl2
+      have hlt : h₁ < b.g.acks.length := hh.lt_held hheld
+      have hack : b'.g.acks[h₁]? = some st := by rw [hacks, hch]; exact setAck_get_self _ _ hlt
+      have hidlt' : c₁.id < b'.g.nextId := by rw [hn2]; exact hidlt
+      have hoff : WOff k b'.w := by rw [hr]; exact woff_recv k
+      have hrest' : RestOk k ds b'.g.queue := by rw [hq2]; exact hrest
+      cases hend with
+      | existsK e hek hst hpend =>
+        have hkn : b.g.adm.kw.get? c₁.id = none := hb.freshIds.2.2.2.1 _ hpend
+        refine .pd true H.length ⟨⟨_, hack, Or.inl ⟨rfl, Or.inr rfl⟩⟩, ?_, by simp, ?_, hocc0, hidlt'⟩ ?_ hoff hrest'
+        · intro ha; rw [hack] at ha; cases ha
+        · intro wk hg; rw [hkw2, hkn] at hg; cases hg
+        · exact Or.inl ⟨e, by rw [hst, ← hck]; exact hek⟩
+      | tooHeavy hnone hst hpend =>
+        have hkn : b.g.adm.kw.get? c₁.id = none := hb.freshIds.2.2.2.1 _ hpend
+        refine .pd false H.length ⟨⟨_, hack, Or.inr ⟨rfl, Or.inl rfl⟩⟩, ?_, by simp, ?_, hocc0, hidlt'⟩ ?_ hoff hrest'
+        · intro ha; rw [hack] at ha; cases ha
+        · intro wk hg; rw [hkw2, hkn] at hg; cases hg
+        · show b'.g.store.get? k = none
+          rw [hst, ← hck]; exact hnone
+      | noSpace happ hst hpend =>
+        have hkn : b.g.adm.kw.get? c₁.id = none := hb.freshIds.2.2.2.1 _ hpend
+        refine .pd false H.length ⟨⟨_, hack, Or.inr ⟨rfl, Or.inr rfl⟩⟩, ?_, by simp, ?_, hocc0, hidlt'⟩ ?_ hoff hrest'
+        · intro ha; rw [hack] at ha; cases ha
+        · intro wk hg; rw [hkw2, hkn] at hg; cases hg
+        · show b'.g.store.get? k = none
+          rw [hst, ← hck]; exact hwa c₁ happ
+      | stored hw httl' hst =>
+        obtain ⟨wk0, hg0, hk0⟩ := hbij.putCharged c₁ (by rw [hw]; rfl)
+        refine .pd true H.length ⟨⟨_, hack, Or.inl ⟨rfl, Or.inl rfl⟩⟩, ?_, by simp, ?_, hocc0, hidlt'⟩ ?_ hoff hrest'
+        · intro _
+          exact ⟨(b, .worker), c₁.v, at_cons_self _ _, rfl, c₁, none, hw, hck, rfl, rfl, by rw [httl']; rfl⟩
+        · intro wk hg; rw [hkw2, hg0] at hg; cases hg; rw [hk0, hck]
+        · exact Or.inl ⟨_, by rw [hst, hck]; exact AMap.get?_set_same _ _ _⟩
+      | indexed e hw hst =>
+        obtain ⟨lo, hlo, hpres, hpp, hkey⟩ := httl e hw
+        refine .pd true lo ⟨⟨_, hack, Or.inl ⟨rfl, Or.inl rfl⟩⟩, fun _ => putPoint_mono _ hpp,
+          by simp only [List.length_cons]; omega, ?_, hocc0, hidlt'⟩ (present_same _ hst hpres) hoff hrest'
+        intro wk hg; rw [hkw2] at hg; exact hkey wk hg
+  | pd pres lo hp hpres hoff hrest =>
+    left
+    have hp' := hp.worker hh hs
+    have hpres' := presAt_worker he hs hp.lo hoff hpres
+    by_cases hrecv : b.w = .recv
+    · cases hq : b.g.queue with
+      | nil => simp [workerAct, hrecv, hq] at hsw
+      | cons x q =>
+        obtain ⟨cmd, hx⟩ := x
+        have hne : cmd ≠ .shutdown := he.queue (cmd, hx) (by rw [hq]; exact List.mem_cons_self)
+        have hb' := worker_recv hrecv hq hne hsw
+        rw [hq] at hrest
+        cases ds with
+        | none =>
+          have hkf : KFree k ((cmd, hx) :: q) := hrest
+          refine .pd pres lo hp' hpres' ?_ ?_
+          · rw [hb']; exact woff_takeW hkf.head
+          · rw [hb']; exact hkf.tail
+        | some h₂ =>
+          obtain ⟨qb, qc, hqq, hkb, hkc⟩ := hrest
+          cases qb with
+          | nil =>
+            simp only [List.nil_append, List.cons.injEq, Prod.mk.injEq] at hqq
+            obtain ⟨⟨rfl, rfl⟩, rfl⟩ := hqq
+            exact .dw0 h₂ pres lo rfl hp' hpres' (by rw [hb']; rfl) (by rw [hb']; exact hkc)
+          | cons y qb' =>
+            simp only [List.cons_append, List.cons.injEq] at hqq
+            obtain ⟨rfl, rfl⟩ := hqq
+            refine .pd pres lo hp' hpres' (by rw [hb']; exact woff_takeW hkb.head) ?_
+            rw [hb']; exact ⟨qb', qc, rfl, hkb.tail, hkc⟩
+    · exact .pd pres lo hp' hpres' (woff_keep ht hrecv hoff)
+        (by rw [worker_busy_queue ht hrecv he.drain hd]; exact hrest)
+  | dw0 h₂ pres lo hds hp hpres hw hkf =>
+    right
+    refine ⟨h₂, hds, ?_⟩
+    have hp' := hp.worker hh hs
+    have hheld : b.w.held = some h₂ := by rw [hw]; rfl
+    have hlt := hh.lt_held hheld
+    have hdel : DelAt ((b, .worker) :: H) H.length k h₂ := ⟨b, at_cons_self _ _, hw⟩
+    obtain ⟨_, _, ⟨hnone, rfl⟩ | ⟨e, hsome, rfl⟩⟩ := ent_workerAct_delStore hw hsw
+    · refine .dd pres lo H.length (.rejected .keyDoesNotExist) hp' hdel hp.lo
+        (by simp only [finishCmd]; exact setAck_get_self _ _ hlt) ?_ hkf (woff_recv k) hnone ?_
+      · cases pres with
+        | true =>
+          rcases hpres with ⟨e, he'⟩ | ⟨n, x, h1, h2, h3⟩
+          · rw [hnone] at he'; cases he'
+          · exact Or.inl ⟨rfl, Or.inr ⟨rfl, n, x, h1, h2.lt, (Sub.cons _ _).at h2, h3⟩⟩
+        | false => exact Or.inr ⟨rfl, rfl⟩
+      · exact kw_none_of_bij hbij' rfl hp'.key hnone
+    · cases pres with
+      | false =>
+        have : b.g.store.get? k = none := hpres
+        rw [this] at hsome; cases hsome
+      | true => exact .dw1 lo H.length hp' hdel hp.lo rfl rfl hkf (by simp)
+
+/-- **LATE is kept by every worker action.** -/
+theorem pdl_worker {i k h₁ : Nat} {c₁ : PutCmd} {H : List (BState × Act)} {h₂ : Nat} {b b' : BState}
+    {o o' : Oracle} (he : Env i k b) (hh : HInv b) (hbij' : BBij b') (hs : stepB b .worker o = .ok (b', o'))
+    (hd : b'.w ≠ .dead) (hi : PDL k h₁ c₁ H h₂ b) : PDL k h₁ c₁ ((b, .worker) :: H) h₂ b' := by
+  have hsw : workerAct b o = .ok (b', o') := hs
+  have ht := workerAct_trans hsw
+  cases hi with
+  | dw1 lo d hp hdel hlod hheld htail hkf hnone =>
+    have hp' := hp.worker hh hs
+    have hst := delTail_store ht htail
+    have hbusy : b.w.busy = true := busy_of_delTail htail
+    by_cases hb' : b'.w.busy = true
+    · obtain ⟨hheld', _, hq'⟩ := C11_layerB_keeps_handle hs hbusy hb'
+      exact .dw1 lo d hp' (hdel.mono _) hlod (by rw [hheld']; exact hheld) (delTail_cont ht htail hb')
+        (by rw [hq']; exact hkf) (by rw [hst]; exact hnone)
+    · have hbf : b'.w.busy = false := by simpa using hb'
+      obtain ⟨hr, hacks, hq', _⟩ := delTail_complete ht htail hbf hd
+      have hlt := hh.lt_held hheld
+      have hnone' : b'.g.store.get? k = none := by rw [hst]; exact hnone
+      exact .dd true lo d .accepted hp' (hdel.mono _) hlod (by rw [hacks, hheld]; exact setAck_get_self _ _ hlt)
+        (Or.inl ⟨rfl, Or.inl rfl⟩) (by rw [hq']; exact hkf) (by rw [hr]; exact woff_recv k) hnone'
+        (kw_none_of_bij hbij' hr hp'.key hnone')
+  | dd pres lo d st₂ hp hdel hlod hack hres hkf hoff hnone hkw =>
+    have hp' := hp.worker hh hs
+    have hnone' := absent_step hs (woff_storePut hoff) hnone
+    have hkw' := wtrans_kw_none ht (insert_ne_of_occ0 hp.occ0) hkw
+    have hack' := (C11_layerB_acks_grow hh hs).2 h₂ st₂ hack hres.ne_pending
+    by_cases hrecv : b.w = .recv
+    · cases hq : b.g.queue with
+      | nil => simp [workerAct, hrecv, hq] at hsw
+      | cons x q =>
+        obtain ⟨cmd, hx⟩ := x
+        have hne : cmd ≠ .shutdown := he.queue (cmd, hx) (by rw [hq]; exact List.mem_cons_self)
+        have hb' := worker_recv hrecv hq hne hsw
+        rw [hq] at hkf
+        exact .dd pres lo d st₂ hp' (hdel.mono _) hlod hack' (hres.mono _) (by rw [hb']; exact hkf.tail)
+          (by rw [hb']; exact woff_takeW hkf.head) hnone' hkw'
+    · exact .dd pres lo d st₂ hp' (hdel.mono _) hlod hack' (hres.mono _)
+        (by rw [worker_busy_queue ht hrecv he.drain hd]; exact hkf) (woff_keep ht hrecv hoff) hnone' hkw'
+
+/-! ## 11  the two calls of client `i` -/
+
+/-- client `i` stands inside its call `put_with_weight(k, v, w)` / `…_and_ttl(k, v, w, ttl)` -/
+def InPut (i k v : Nat) (w : Int) (ttl : Option Nat) (b : BState) : Prop :=
+  b.cl[i]? = some (.start (.putW k v w ttl)) ∨ b.cl[i]? = some (.putPresent k v w ttl) ∨
+  b.cl[i]? = some (.idNext k v w ttl) ∨
+  ∃ c : PutCmd, b.cl[i]? = some (.send (cmdOfPut c)) ∧ c.k = k ∧ c.v = v ∧ c.w = w ∧ c.ttl = ttl
+
+theorem InPut.not_idle {i k v : Nat} {w : Int} {ttl : Option Nat} {b : BState} (h : InPut i k v w ttl b) :
+    b.cl[i]? ≠ some .idle := by
+  rcases h with h | h | h | ⟨c, h, _⟩ <;> rw [h] <;> simp
+
+/-- the call returns `out` -/
+def Ret (b b' : BState) (i : Nat) (out : Out) : Prop :=
+  b'.cl[i]? = some .idle ∧ b'.res = b.res.set i (out :: b.res.getD i [])
+
+theorem ret_finishCall {b : BState} {i : Nat} {pc : CPc} (hpc : b.cl[i]? = some pc) (g : State) (out : Out) :
+    Ret b (finishCall { b with g := g } i out) i out := by
+  have hlt : i < b.cl.length := lt_of_getElem?_some hpc
+  exact ⟨by simp [finishCall, hlt], rfl⟩
+
+theorem cmdOfPut_h (c : PutCmd) (hh : Option Nat) : cmdOfPut { c with h := hh } = cmdOfPut c := by
+  obtain ⟨id, hash, w, k, v, ttl, h1⟩ := c
+  cases ttl <;> rfl
+
+/-- **One action of client `i` inside its put call** (cache running): the call goes on; or it returns with a pending
+    acknowledgement `h = acks.length`, its command `Put(c)` enqueued at the tail with that handle; or it returns
+    otherwise (answered on the spot, `Err`, panic) -/
+theorem put_call_step {i k v : Nat} {w : Int} {ttl : Option Nat} {b b' : BState} {o o' : Oracle}
+    (hs : clientAct b i o = .ok (b', o')) (hrun : b.g.shutting = false) (hin : InPut i k v w ttl b) :
+    InPut i k v w ttl b' ∨
+    ∃ out, Ret b b' i out ∧
+      ((∃ c : PutCmd, c.k = k ∧ c.v = v ∧ c.w = w ∧ c.ttl = ttl ∧ c.h = some b.g.acks.length ∧
+          b.cl[i]? = some (.send (cmdOfPut c)) ∧ out = .ack b.g.acks.length .pending ∧
+          b'.g.queue = b.g.queue ++ [(cmdOfPut c, some b.g.acks.length)]) ∨
+       ∀ h, out ≠ .ack h .pending) := by
+  rcases hin with hpc | hpc | hpc | ⟨c, hpc, h1, h2, h3, h4⟩
+  · have hlt : i < b.cl.length := lt_of_getElem?_some hpc
+    unfold clientAct at hs
+    simp only [hpc, hrun, Bool.false_eq_true, ↓reduceIte] at hs
+    split at hs
+    · simp only [Except.ok.injEq, Prod.mk.injEq] at hs; obtain ⟨rfl, rfl⟩ := hs
+      exact Or.inr ⟨_, ret_finishCall hpc b.g _, Or.inr (fun h e => by cases e)⟩
+    · simp only [Except.ok.injEq, Prod.mk.injEq] at hs; obtain ⟨rfl, rfl⟩ := hs
+      exact Or.inl (Or.inr (Or.inl (by simp [setClient, hlt])))
+  · have hlt : i < b.cl.length := lt_of_getElem?_some hpc
+    unfold clientAct at hs
+    simp only [hpc] at hs
+    split at hs
+    · simp only [Except.ok.injEq, Prod.mk.injEq] at hs; obtain ⟨rfl, rfl⟩ := hs
+      exact Or.inr ⟨_, ret_finishCall hpc _ _, Or.inr (fun h e => by cases e)⟩
+    · simp only [Except.ok.injEq, Prod.mk.injEq] at hs; obtain ⟨rfl, rfl⟩ := hs
+      exact Or.inl (Or.inr (Or.inr (Or.inl (by simp [setClient, hlt]))))
+  · have hlt : i < b.cl.length := lt_of_getElem?_some hpc
+    unfold clientAct at hs
+    simp only [hpc, Except.ok.injEq, Prod.mk.injEq] at hs; obtain ⟨rfl, rfl⟩ := hs
+    refine Or.inl (Or.inr (Or.inr (Or.inr ⟨⟨b.g.nextId, b.g.cfg.hashOf k, w, k, v, ttl, none⟩, ?_, rfl, rfl, rfl, rfl⟩)))
+    cases ttl <;> simp [setClient, hlt, cmdOfPut]
+  · unfold clientAct at hs
+    simp only [hpc] at hs
+    split at hs
+    · rename_i b1 hsend
+      simp only [Except.ok.injEq, Prod.mk.injEq] at hs; obtain ⟨rfl, rfl⟩ := hs
+      unfold sendAct at hsend
+      simp only [] at hsend
+      split at hsend
+      · simp only [Except.ok.injEq] at hsend; subst hsend
+        exact Or.inr ⟨_, ret_finishCall hpc b.g _, Or.inr (fun h e => by cases e)⟩
+      · split at hsend
+        · cases hsend
+        · simp only [Except.ok.injEq] at hsend; subst hsend
+          refine Or.inr ⟨_, ret_finishCall hpc _ _, Or.inl ⟨{ c with h := some b.g.acks.length }, h1, h2, h3, h4, rfl, ?_, rfl, ?_⟩⟩
+          · rw [cmdOfPut_h]; exact hpc
+          · rw [cmdOfPut_h]; rfl
+    · cases hs
+
+/-- client `i` stands inside its call `delete(k)` -/
+def InDel (i k : Nat) (b : BState) : Prop :=
+  b.cl[i]? = some (.start (.delete k)) ∨ b.cl[i]? = some (.delMark k) ∨ b.cl[i]? = some (.send (.delete k))
+
+theorem InDel.not_idle {i k : Nat} {b : BState} (h : InDel i k b) : b.cl[i]? ≠ some .idle := by
+  rcases h with h | h | h <;> rw [h] <;> simp
+
+/-- **One action of client `i` inside its delete call** (cache running): the call goes on (and this action sent
+    nothing); or it returns with a pending acknowledgement `h = acks.length`, `Delete(k)` enqueued at the tail with that
+    handle; or it returns otherwise (`Err`) -/
+theorem del_call_step {i k : Nat} {b b' : BState} {o o' : Oracle}
+    (hs : clientAct b i o = .ok (b', o')) (hrun : b.g.shutting = false) (hin : InDel i k b) :
+    (InDel i k b' ∧ ∀ cmd, b.cl[i]? ≠ some (.send cmd)) ∨
+    ∃ out, Ret b b' i out ∧
+      ((b.cl[i]? = some (.send (.delete k)) ∧ out = .ack b.g.acks.length .pending ∧
+          b'.g.queue = b.g.queue ++ [(.delete k, some b.g.acks.length)]) ∨
+       ∀ h, out ≠ .ack h .pending) := by
+  rcases hin with hpc | hpc | hpc
+  · have hlt : i < b.cl.length := lt_of_getElem?_some hpc
+    unfold clientAct at hs
+    simp only [hpc, hrun, Bool.false_eq_true, ↓reduceIte, Except.ok.injEq, Prod.mk.injEq] at hs; obtain ⟨rfl, rfl⟩ := hs
+    exact Or.inl ⟨Or.inr (Or.inl (by simp [setClient, hlt])), fun cmd e => by rw [hpc] at e; cases e⟩
+  · have hlt : i < b.cl.length := lt_of_getElem?_some hpc
+    unfold clientAct at hs
+    simp only [hpc] at hs
+    split at hs
+    · cases hs
+    · simp only [Except.ok.injEq, Prod.mk.injEq] at hs; obtain ⟨rfl, rfl⟩ := hs
+      exact Or.inl ⟨Or.inr (Or.inr (by simp [setClient, hlt])), fun cmd e => by rw [hpc] at e; cases e⟩
+  · unfold clientAct at hs
+    simp only [hpc] at hs
+    split at hs
+    · rename_i b1 hsend
+      simp only [Except.ok.injEq, Prod.mk.injEq] at hs; obtain ⟨rfl, rfl⟩ := hs
+      unfold sendAct at hsend
+      simp only [] at hsend
+      split at hsend
+      · simp only [Except.ok.injEq] at hsend; subst hsend
+        exact Or.inr ⟨_, ret_finishCall hpc b.g _, Or.inr (fun h e => by cases e)⟩
+      · split at hsend
+        · cases hsend
+        · simp only [Except.ok.injEq] at hsend; subst hsend
+          exact Or.inr ⟨_, ret_finishCall hpc _ _, Or.inl ⟨hpc, rfl, rfl⟩⟩
+    · cases hs
+
+/-- EARLY under an action of client `i` inside its delete call that sends nothing (`start`, `delete.mark`) -/
+theorem pde_del_call {i k h₁ : Nat} {c₁ : PutCmd} {H : List (BState × Act)} {b b' : BState} {o o' : Oracle}
+    (he : Env i k b) (hs : stepB b (.client i) o = .ok (b', o')) (hns : ∀ cmd, b.cl[i]? ≠ some (.send cmd))
+    (hi : PDE k h₁ c₁ H none b) : PDE k h₁ c₁ ((b, .client i) :: H) none b' := by
+  obtain ⟨x, ho, rfl | ⟨j, cmd, hj, hsend, _, _⟩⟩ := other_eff he hs (by simp)
+  · exact pde_other_gen he hs (by simp) ho (fun rest h => h.append (KFree.nil k)) (fun h₂ h => by cases h) hi
+  · cases hj
+    exact absurd hsend (hns cmd)
+
+/-- EARLY under the `cmd.send` of client `i`'s delete call: the `Delete(k)` is now behind the put's command -/
+theorem pde_send {i k h₁ : Nat} {c₁ : PutCmd} {H : List (BState × Act)} {b b' : BState} {o o' : Oracle}
+    (he : Env i k b) (hs : stepB b (.client i) o = .ok (b', o'))
+    (hq : b'.g.queue = b.g.queue ++ [(.delete k, some b.g.acks.length)])
+    (hi : PDE k h₁ c₁ H none b) : PDE k h₁ c₁ ((b, .client i) :: H) (some b.g.acks.length) b' := by
+  obtain ⟨x, ho, _⟩ := other_eff he hs (by simp)
+  have hx : x = [(.delete k, some b.g.acks.length)] := by
+    have := ho.queue
+    rw [hq] at this
+    exact (List.append_cancel_left this).symm
+  subst hx
+  refine pde_other_gen he hs (by simp) ho (fun rest h => ?_) (fun h₂ h => by cases h) hi
+  exact ⟨rest, [], rfl, h, KFree.nil k⟩
+
+/-- client `i` stays outside every put / upsert / delete of `k` as long as it issues none -/
+theorem ioff_step {i k : Nat} {b b' : BState} {a : Act} {o o' : Oracle} (hs : stepB b a o = .ok (b', o'))
+    (hoff : ∀ pc, b.cl[i]? = some pc → onK k pc = false) (hiss : ∀ r, a = .issue i r → reqOnK k r = false) :
+    ∀ pc, b'.cl[i]? = some pc → onK k pc = false := by
+  intro pc' hpc'
+  by_cases h1 : a = .client i
+  · subst h1
+    simp only [stepB] at hs
+    cases hpc : b.cl[i]? with
+    | none => simp [clientAct, hpc] at hs
+    | some pc => exact bool_false_of_imp ((client_tags hs hpc hpc').1 k) (hoff pc hpc)
+  · by_cases h2 : ∃ r, a = .issue i r
+    · obtain ⟨r, rfl⟩ := h2
+      obtain ⟨_, rfl⟩ := stepB_issue_inv hs
+      have := pc_of_set hpc'; subst this
+      exact hiss r rfl
+    · rw [other_threads_keep_pc hs h1 (fun r e => h2 ⟨r, e⟩)] at hpc'
+      exact hoff pc' hpc'
+
+/-! ## 12  histories: prefixes, reachability, the worker alive -/
+
+theorem sub_snoc {H h : List (BState × Act)} {y : BState × Act} (hsub : Sub H h) (hy : At h H.length y) :
+    Sub (y :: H) h := by
+  intro q x
+  rw [at_cons]
+  constructor
+  · rintro (⟨rfl, rfl⟩ | hx)
+    · exact ⟨by simp, hy⟩
+    · obtain ⟨h1, h2⟩ := (hsub q x).mp hx
+      exact ⟨by simp only [List.length_cons]; omega, h2⟩
+  · rintro ⟨h1, h2⟩
+    simp only [List.length_cons] at h1
+    by_cases hq : q = H.length
+    · subst hq
+      exact Or.inl ⟨rfl, h2.inj hy⟩
+    · exact Or.inr ((hsub q x).mpr ⟨by omega, h2⟩)
+
+theorem runH_first {b0 b : BState} {h : List (BState × Act)} (hrun : RunH b0 h b) : StateAt h b 0 b0 := by
+  induction hrun with
+  | nil => exact Or.inl ⟨rfl, rfl⟩
+  | @step b1 b' h1 a1 o o' _ _ ih =>
+    rcases ih with ⟨e, rfl⟩ | ⟨a, ha⟩
+    · have : h1 = [] := List.length_eq_zero_iff.mp e.symm
+      subst this
+      exact Or.inr ⟨a1, at_cons_self _ _⟩
+    · exact Or.inr ⟨a, (Sub.cons _ _).at ha⟩
+
+theorem stateAt_succ {b0 b : BState} {h : List (BState × Act)} (hrun : RunH b0 h b) {m : Nat} {s' : BState}
+    (hst : StateAt h b (m + 1) s') :
+    ∃ s a o o', At h m (s, a) ∧ stepB s a o = .ok (s', o') := by
+  have hm : m < h.length := by
+    rcases hst with ⟨e, _⟩ | ⟨a, ha⟩
+    · omega
+    · have := ha.lt; omega
+  have hx : ∃ x, At h m x := by
+    unfold At
+    exact ⟨_, List.getElem?_eq_getElem (by simpa using hm)⟩
+  obtain ⟨⟨s, a⟩, hx⟩ := hx
+  obtain ⟨s'', o, o', _, hstep, hst'', _⟩ := runH_at hrun hx
+  have := hst''.inj hst
+  subst this
+  exact ⟨s, a, o, o', hx, hstep⟩
+
+theorem reach_runH' {cfg : Cfg} {now : Nat} {seeds : List Nat} {clients : Nat} {b0 b : BState}
+    {h : List (BState × Act)} (hr : Reach cfg now seeds clients b0) (hrun : RunH b0 h b) :
+    Reach cfg now seeds clients b := by
+  induction hrun with
+  | nil => exact hr
+  | step _ hs ih => exact .step ih hs
+
+theorem stateAt_reach {cfg : Cfg} {now : Nat} {seeds : List Nat} {clients : Nat} {b0 b : BState}
+    {h : List (BState × Act)} (hr : Reach cfg now seeds clients b0) (hrun : RunH b0 h b) {m : Nat} {s : BState}
+    (hst : StateAt h b m s) : Reach cfg now seeds clients s := by
+  rcases hst with ⟨_, rfl⟩ | ⟨a, ha⟩
+  · exact reach_runH' hr hrun
+  · obtain ⟨_, _, _, h0, _, _, hr0, _, _⟩ := runH_at hrun ha
+    exact reach_runH' hr hr0
+
+theorem stateAt_alive {b0 b : BState} {h : List (BState × Act)} (hrun : RunH b0 h b) (hd : b.w ≠ .dead) {m : Nat}
+    {s : BState} (hst : StateAt h b m s) : s.w ≠ .dead := by
+  induction hrun with
+  | nil =>
+    rcases hst with ⟨_, rfl⟩ | ⟨a, ha⟩
+    · exact hd
+    · exact absurd ha.lt (by simp)
+  | @step b1 b' h1 a1 o o' _ hs ih =>
+    rcases hst with ⟨_, rfl⟩ | ⟨a, ha⟩
+    · exact hd
+    · rcases at_cons.mp ha with ⟨_, e⟩ | ha1
+      · cases e
+        exact alive_before hs hd
+      · exact ih (alive_before hs hd) (Or.inr ⟨a, ha1⟩)
+
+/-! ## 13  the scenario and the invariant along the run -/
+
+/-- **The scenario**: in the history `hf` (final state `bf`) client `i` issues `put(k, v, w, ttl)` at `n₁`, the call
+    returns at `r₁` with the pending acknowledgement `h₁`; client `i` issues nothing until it issues `delete(k)` at `n₂`,
+    which returns at `r₂` with the pending acknowledgement `h₂`; afterwards client `i` issues no put / upsert / delete of
+    `k`; no other client ever issues a put / upsert / delete of `k`; nobody issues `shutdown()`. -/
+structure Scen (hf : List (BState × Act)) (bf : BState) (i k v : Nat) (w : Int) (ttl : Option Nat)
+    (n₁ r₁ n₂ r₂ h₁ h₂ : Nat) : Prop where
+  noShutdown : ∀ j n, ¬ Issued hf j .shutdown n
+  others : ∀ j q r, j ≠ i → Issued hf j r q → reqOnK k r = false
+  put : Issued hf i (.putW k v w ttl) n₁
+  ret1 : Returned hf bf i r₁ (.ack h₁ .pending)
+  lt1 : n₁ < r₁
+  same1 : ∀ q r, n₁ < q → q < r₁ → ¬ Issued hf i r q
+  del : Issued hf i (.delete k) n₂
+  lt12 : r₁ < n₂
+  between : ∀ q r, r₁ < q → q < n₂ → ¬ Issued hf i r q
+  ret2 : Returned hf bf i r₂ (.ack h₂ .pending)
+  lt2 : n₂ < r₂
+  same2 : ∀ q r, n₂ < q → q < r₂ → ¬ Issued hf i r q
+  after : ∀ q r, r₂ < q → Issued hf i r q → reqOnK k r = false
+
+/-- `c₁` is THE command of the put: key, value, weight, time-to-live of the call, the handle `h₁`, and it is what
+    client `i` stood to send in the action `r₁` that returned the call -/
+def IsCmd (hf : List (BState × Act)) (i k v : Nat) (w : Int) (ttl : Option Nat) (r₁ h₁ : Nat) (c₁ : PutCmd) : Prop :=
+  c₁.k = k ∧ c₁.v = v ∧ c₁.w = w ∧ c₁.ttl = ttl ∧ c₁.h = some h₁ ∧
+  ∃ s, At hf r₁ (s, .client i) ∧ s.cl[i]? = some (.send (cmdOfPut c₁))
+
+theorem IsCmd.unique {hf : List (BState × Act)} {i k v : Nat} {w : Int} {ttl : Option Nat} {r₁ h₁ : Nat}
+    {c c' : PutCmd} (h : IsCmd hf i k v w ttl r₁ h₁ c) (h' : IsCmd hf i k v w ttl r₁ h₁ c') : c = c' := by
+  obtain ⟨_, _, _, _, hh, s, hx, hpc⟩ := h
+  obtain ⟨_, _, _, _, hh', s', hx', hpc'⟩ := h'
+  have := hx.inj hx'
+  cases this
+  rw [hpc] at hpc'
+  simp only [Option.some.injEq, CPc.send.injEq] at hpc'
+  exact cmdOfPut_inj hpc' (by rw [hh, hh'])
+
+/-- the invariant along the run, phase by phase (`H`: the history so far) -/
+def J (hf : List (BState × Act)) (i k v : Nat) (w : Int) (ttl : Option Nat) (n₁ r₁ n₂ r₂ h₁ h₂ : Nat)
+    (H : List (BState × Act)) (s : BState) : Prop :=
+  Env i k s ∧
+  (n₁ < H.length → H.length ≤ r₁ → InPut i k v w ttl s ∨ s.cl[i]? = some .idle) ∧
+  (r₁ < H.length → H.length ≤ n₂ →
+    s.cl[i]? = some .idle ∧ ∃ c₁, IsCmd hf i k v w ttl r₁ h₁ c₁ ∧ PDE k h₁ c₁ H none s) ∧
+  (n₂ < H.length → H.length ≤ r₂ →
+    (InDel i k s ∧ ∃ c₁, IsCmd hf i k v w ttl r₁ h₁ c₁ ∧ PDE k h₁ c₁ H none s) ∨ s.cl[i]? = some .idle) ∧
+  (r₂ < H.length →
+    (∀ pc, s.cl[i]? = some pc → onK k pc = false) ∧
+    ∃ c₁, IsCmd hf i k v w ttl r₁ h₁ c₁ ∧ (PDE k h₁ c₁ H (some h₂) s ∨ PDL k h₁ c₁ H h₂ s))
+
+theorem client_idle_stuck {b : BState} {i : Nat} {o : Oracle} {x : BState × Oracle} (h : b.cl[i]? = some .idle) :
+    stepB b (.client i) o ≠ .ok x := by
+  simp [stepB, clientAct, h]
+
+theorem sub_nil (h : List (BState × Act)) : Sub [] h := by
+  intro q x
+  constructor
+  · intro hx; exact absurd hx.lt (by simp)
+  · rintro ⟨hq, _⟩; exact absurd hq (by simp)
+
+theorem env_init {i k : Nat} {b0 : BState} (hidle : ∀ pc ∈ b0.cl, pc = .idle) (hrun0 : b0.g.shutting = false)
+    (hq0 : ∀ p ∈ b0.g.queue, p.1 ≠ .shutdown) (hw0 : b0.w ≠ .drain) : Env i k b0 := by
+  refine ⟨hrun0, ?_, hq0, hw0, ?_⟩
+  · intro j pc hpc
+    rw [hidle pc (List.mem_of_getElem? hpc)]; rfl
+  · intro j pc _ hpc
+    rw [hidle pc (List.mem_of_getElem? hpc)]; rfl
+
+theorem ret_out {b b' : BState} {i : Nat} {out out' : Out} (hret : Ret b b' i out)
+    (hres : b'.res[i]? = some (out' :: b.res.getD i [])) : out = out' := by
+  rw [hret.2] at hres
+  exact res_set_head hres
+
+/-- **The invariant holds at every state of the history.** -/
+theorem main_inv {cfg : Cfg} {now : Nat} {seeds : List Nat} {clients : Nat} {b0 bf : BState}
+    {hf : List (BState × Act)} {i k v : Nat} {w : Int} {ttl : Option Nat} {n₁ r₁ n₂ r₂ h₁ h₂ : Nat}
+    (hr0 : Reach cfg now seeds clients b0) (hidle : ∀ pc ∈ b0.cl, pc = .idle) (hrun0 : b0.g.shutting = false)
+    (hq0 : ∀ p ∈ b0.g.queue, p.1 ≠ .shutdown) (hw0 : b0.w ≠ .drain) (hrun : RunH b0 hf bf) (hAlive : bf.w ≠ .dead)
+    (sc : Scen hf bf i k v w ttl n₁ r₁ n₂ r₂ h₁ h₂) :
+    ∀ m s, StateAt hf bf m s → ∃ H, Sub H hf ∧ H.length = m ∧ J hf i k v w ttl n₁ r₁ n₂ r₂ h₁ h₂ H s := by
+  intro m
+  induction m with
+  | zero =>
+    intro s hst
+    have := hst.inj (runH_first hrun)
+    subst this
+    refine ⟨[], sub_nil _, rfl, env_init hidle hrun0 hq0 hw0, ?_, ?_, ?_, ?_⟩
+    all_goals (intro h; exact absurd h (Nat.not_lt_zero _))
+  | succ m ih =>
+    intro s' hst'
+    obtain ⟨s, a, o, o', hx, hstep⟩ := stateAt_succ hrun hst'
+    have hst : StateAt hf bf m s := Or.inr ⟨a, hx⟩
+    obtain ⟨H, hsub, hlen, he, hP1, hP2, hP3, hP4⟩ := ih s hst
+    subst hlen
+    refine ⟨(s, a) :: H, sub_snoc hsub hx, rfl, ?_⟩
+    have hrs := stateAt_reach hr0 hrun hst
+    have hrs' := stateAt_reach hr0 hrun hst'
+    have hbinv := binv_reach hrs
+    have hwab := wabsent_reach hrs
+    have hhinv := hinv_reach hrs
+    have hbij := bbij_reach hrs he.flag
+    have halive' : s'.w ≠ .dead := stateAt_alive hrun hAlive hst'
+    have hok : IssueOk i k a := by
+      intro j r e
+      subst e
+      exact ⟨fun e' => sc.noShutdown j H.length (e' ▸ ⟨s, hx⟩), fun hj => sc.others j H.length r hj ⟨s, hx⟩⟩
+    have he' := env_step he hstep hok
+    have hbij' := bbij_reach hrs' he'.flag
+    -- the two kinds of steps of the put / delete invariants
+    have stepE : ∀ {c₁ : PutCmd} {ds : Option Nat}, c₁.k = k → c₁.h = some h₁ →
+        (∀ j pc, a = .client j → s.cl[j]? = some pc → onK k pc = false) → PDE k h₁ c₁ H ds s →
+        PDE k h₁ c₁ ((s, a) :: H) ds s' ∨ ∃ h₂', ds = some h₂' ∧ PDL k h₁ c₁ ((s, a) :: H) h₂' s' := by
+      intro c₁ ds hck hch hcl hpde
+      by_cases haw : a = .worker
+      · subst haw
+        exact pde_worker hck hch he hbinv hwab hhinv hbij hbij' hstep halive' hpde
+      · exact Or.inl (pde_other he hstep haw hcl hpde)
+    have stepL : ∀ {c₁ : PutCmd} {h₂' : Nat},
+        (∀ j pc, a = .client j → s.cl[j]? = some pc → onK k pc = false) → PDL k h₁ c₁ H h₂' s →
+        PDL k h₁ c₁ ((s, a) :: H) h₂' s' := by
+      intro c₁ h₂' hcl hpdl
+      by_cases haw : a = .worker
+      · subst haw
+        exact pdl_worker he hhinv hbij' hstep halive' hpdl
+      · exact pdl_other he hstep haw hcl hpdl
+    have hclO : a ≠ .client i → ∀ j pc, a = .client j → s.cl[j]? = some pc → onK k pc = false := by
+      intro hai j pc e hpc
+      exact he.others j pc (fun e' => hai (e' ▸ e)) hpc
+    have hl1 := sc.lt1
+    have hl12 := sc.lt12
+    have hl2 := sc.lt2
+    simp only [J, List.length_cons]
+    refine ⟨he', ?_, ?_, ?_, ?_⟩
+    · -- phase 1: inside the put call
+      intro h1 h2
+      by_cases hm : H.length = n₁
+      · obtain ⟨s0, hx0⟩ := sc.put
+        rw [← hm] at hx0
+        have := hx.inj hx0
+        cases this
+        obtain ⟨hidle0, rfl⟩ := stepB_issue_inv hstep
+        have hlt : i < s.cl.length := lt_of_getElem?_some hidle0
+        exact Or.inl (Or.inl (by simp [setClient, hlt]))
+      · have hni : ∀ r, a ≠ .issue i r := fun r e => sc.same1 H.length r (by omega) (by omega) ⟨s, e ▸ hx⟩
+        by_cases hai : a = .client i
+        · subst hai
+          rcases hP1 (by omega) (by omega) with hin | hid
+          · rcases put_call_step (by simpa [stepB] using hstep) he.flag hin with hin' | ⟨out, hret, _⟩
+            · exact Or.inl hin'
+            · exact Or.inr hret.1
+          · exact absurd hstep (client_idle_stuck hid)
+        · have hkeep := other_threads_keep_pc hstep hai hni
+          rcases hP1 (by omega) (by omega) with hin | hid
+          · left; unfold InPut at hin ⊢; rw [hkeep]; exact hin
+          · right; rw [hkeep]; exact hid
+    · -- phase 2: between the two calls
+      intro h1 h2
+      by_cases hm : H.length = r₁
+      · obtain ⟨s0, s0', hx0, hst0', hidle0, hres0⟩ := sc.ret1
+        rw [← hm] at hx0 hst0'
+        have := hx.inj hx0
+        cases this
+        have := hst0'.inj hst'
+        subst this
+        refine ⟨hidle0, ?_⟩
+        rcases hP1 (by omega) (by omega) with hin | hid
+        · rcases put_call_step (by simpa [stepB] using hstep) he.flag hin with hin' | ⟨out, hret, hcase⟩
+          · exact absurd hidle0 hin'.not_idle
+          · have hout := ret_out hret hres0
+            subst hout
+            rcases hcase with ⟨c, hc1, hc2, hc3, hc4, hch, hsend, hout, hq⟩ | hno
+            · simp only [Out.ack.injEq, and_true] at hout
+              rw [← hout] at hch hq
+              refine ⟨c, ⟨hc1, hc2, hc3, hc4, hch, s, hm ▸ hx, hsend⟩, ?_⟩
+              exact .pq s.g.queue [] hq (KFree.nil k)
+            · exact absurd rfl (hno h₁)
+        · exact absurd hstep (client_idle_stuck hid)
+      · obtain ⟨hid, c₁, hc, hpde⟩ := hP2 (by omega) (by omega)
+        have hni : ∀ r, a ≠ .issue i r := fun r e => sc.between H.length r (by omega) (by omega) ⟨s, e ▸ hx⟩
+        have hai : a ≠ .client i := fun e => by subst e; exact absurd hstep (client_idle_stuck hid)
+        refine ⟨by rw [other_threads_keep_pc hstep hai hni]; exact hid, c₁, hc, ?_⟩
+        rcases stepE hc.1 hc.2.2.2.2.1 (hclO hai) hpde with h | ⟨_, e, _⟩
+        · exact h
+        · cases e
+    · -- phase 3: inside the delete call
+      intro h1 h2
+      by_cases hm : H.length = n₂
+      · obtain ⟨s0, hx0⟩ := sc.del
+        rw [← hm] at hx0
+        have := hx.inj hx0
+        cases this
+        obtain ⟨hid, c₁, hc, hpde⟩ := hP2 (by have := sc.lt12; omega) (by omega)
+        have hpde' := pde_other he hstep (by simp) (fun j pc e => by cases e) hpde
+        obtain ⟨hidle0, rfl⟩ := stepB_issue_inv hstep
+        have hlt : i < s.cl.length := lt_of_getElem?_some hidle0
+        exact Or.inl ⟨Or.inl (by simp [setClient, hlt]), c₁, hc, hpde'⟩
+      · have hni : ∀ r, a ≠ .issue i r := fun r e => sc.same2 H.length r (by omega) (by omega) ⟨s, e ▸ hx⟩
+        rcases hP3 (by omega) (by omega) with ⟨hin, c₁, hc, hpde⟩ | hid
+        · by_cases hai : a = .client i
+          · subst hai
+            rcases del_call_step (by simpa [stepB] using hstep) he.flag hin with ⟨hin', hns⟩ | ⟨out, hret, _⟩
+            · exact Or.inl ⟨hin', c₁, hc, pde_del_call he hstep hns hpde⟩
+            · exact Or.inr hret.1
+          · have hkeep := other_threads_keep_pc hstep hai hni
+            left
+            refine ⟨by unfold InDel at hin ⊢; rw [hkeep]; exact hin, c₁, hc, ?_⟩
+            rcases stepE hc.1 hc.2.2.2.2.1 (hclO hai) hpde with h | ⟨_, e, _⟩
+            · exact h
+            · cases e
+        · have hai : a ≠ .client i := fun e => by subst e; exact absurd hstep (client_idle_stuck hid)
+          exact Or.inr (by rw [other_threads_keep_pc hstep hai hni]; exact hid)
+    · -- phase 4: after the delete call
+      intro h1
+      by_cases hm : H.length = r₂
+      · obtain ⟨s0, s0', hx0, hst0', hidle0, hres0⟩ := sc.ret2
+        rw [← hm] at hx0 hst0'
+        have := hx.inj hx0
+        cases this
+        have := hst0'.inj hst'
+        subst this
+        refine ⟨fun pc hpc => by rw [hidle0] at hpc; cases hpc; rfl, ?_⟩
+        rcases hP3 (by have := sc.lt2; omega) (by omega) with ⟨hin, c₁, hc, hpde⟩ | hid
+        · rcases del_call_step (by simpa [stepB] using hstep) he.flag hin with ⟨hin', _⟩ | ⟨out, hret, hcase⟩
+          · exact absurd hidle0 hin'.not_idle
+          · have hout := ret_out hret hres0
+            subst hout
+            rcases hcase with ⟨_, hout, hq⟩ | hno
+            · simp only [Out.ack.injEq, and_true] at hout
+              have hpde' := pde_send he hstep hq hpde
+              rw [← hout] at hpde'
+              exact ⟨c₁, hc, Or.inl hpde'⟩
+            · exact absurd rfl (hno h₂)
+        · exact absurd hstep (client_idle_stuck hid)
+      · obtain ⟨hoff, c₁, hc, hpd⟩ := hP4 (by omega)
+        have hoff' := ioff_step hstep hoff (fun r e => sc.after H.length r (by omega) ⟨s, e ▸ hx⟩)
+        have hclA : ∀ j pc, a = .client j → s.cl[j]? = some pc → onK k pc = false := by
+          intro j pc e hpc
+          by_cases hj : j = i
+          · subst hj; exact hoff pc hpc
+          · exact he.others j pc hj hpc
+        refine ⟨hoff', c₁, hc, ?_⟩
+        rcases hpd with hpde | hpdl
+        · rcases stepE hc.1 hc.2.2.2.2.1 hclA hpde with h | ⟨h₂', e, h⟩
+          · exact Or.inl h
+          · cases e; exact Or.inr h
+        · exact Or.inr (stepL hclA hpdl)
+
+/-! ## 14  reading the invariant -/
+
+/-- while the `Delete(k)` has not run its `store.remove`, its acknowledgement is pending -/
+theorem pde_pending {k h₁ : Nat} {c₁ : PutCmd} {H : List (BState × Act)} {h₂ : Nat} {s : BState} (hh : HInv s)
+    (hi : PDE k h₁ c₁ H (some h₂) s) : s.g.acks[h₂]? = some .pending := by
+  have hq : ∀ {rest : List (Cmd × Option Nat)}, RestOk k (some h₂) rest → (∀ p ∈ rest, p ∈ s.g.queue) →
+      s.g.acks[h₂]? = some .pending := by
+    intro rest ⟨qb, qc, hr, _, _⟩ hsub
+    refine hh.queued h₂ (mem_qHandles.mpr ⟨.delete k, hsub _ ?_⟩)
+    rw [hr]; simp
+  cases hi with
+  | pq qa rest hq0 hrest => exact hq hrest (fun p hp => by rw [hq0]; simp [hp])
+  | pw _ hrest _ => exact hq hrest (fun p hp => hp)
+  | pd _ _ _ _ _ hrest => exact hq hrest (fun p hp => hp)
+  | dw0 h₂' _ _ hds _ _ hw _ =>
+    cases hds
+    exact (hh.held h₂ (by rw [hw]; rfl)).1
+
+/-- **What the invariant says once the `Delete(k)` is answered.** -/
+theorem pdl_answered {k h₁ : Nat} {c₁ : PutCmd} {H : List (BState × Act)} {h₂ : Nat} {s : BState} (hh : HInv s)
+    (hi : PDL k h₁ c₁ H h₂ s) (ha : Answered s h₂) :
+    s.g.store.get? k = none ∧ s.g.adm.kw.get? c₁.id = none ∧
+    ∃ pres lo d st₁ st₂, s.g.acks[h₁]? = some st₁ ∧ OutOf pres st₁ ∧ s.g.acks[h₂]? = some st₂ ∧
+      lo ≤ d ∧ DelAt H d k h₂ ∧ (st₁ = .accepted → PutPoint H lo k c₁.id) ∧ DelRes H k lo d pres st₂ := by
+  obtain ⟨st, hst, hne⟩ := ha
+  cases hi with
+  | dw1 lo d hp hd hlod hheld htail hkf hnone =>
+    rw [(hh.held h₂ hheld).1] at hst
+    cases hst
+    exact absurd rfl hne
+  | dd pres lo d st₂ hp hd hlod hack hres hkf hoff hnone hkw =>
+    obtain ⟨st₁, hst₁, ho⟩ := hp.ack
+    exact ⟨hnone, hkw, pres, lo, d, st₁, st₂, hst₁, ho, hack, hlod, hd, fun e => hp.born (e ▸ hst₁), hres⟩
+
+/-! ## 15  a running cache at rest: no `Shutdown` command waits, the worker is not draining -/
+
+/-- a `Shutdown` command in the queue, or a draining worker, means that the flag is set -/
+structure ShutQ (b : BState) : Prop where
+  queue : ∀ p ∈ b.g.queue, p.1 = .shutdown → b.g.shutting = true
+  drain : b.w = .drain → b.g.shutting = true
+  noSend : ∀ j : Nat, b.cl[j]? ≠ some (.send .shutdown)
+
+theorem shutQ_step {b b' : BState} {a : Act} {o o' : Oracle} (hb : BInv b) (hi : ShutQ b)
+    (hs : stepB b a o = .ok (b', o')) : ShutQ b' := by
+  have hmono : b.g.shutting = true → b'.g.shutting = true := stepB_shutting_mono hs
+  cases a with
+  | issue j r =>
+    obtain ⟨_, rfl⟩ := stepB_issue_inv hs
+    refine ⟨hi.queue, hi.drain, ?_⟩
+    intro j' hpc
+    by_cases hj : j' = j
+    · subst hj; have := pc_of_set hpc; cases this
+    · simp only [setClient, List.getElem?_set_ne (Ne.symm hj)] at hpc
+      exact hi.noSend j' hpc
+  | client j =>
+    have hs' : clientAct b j o = .ok (b', o') := hs
+    have ht := clientAct_trans hs'
+    obtain ⟨pc, pc', hpc, hcl, _, _⟩ := ctrans_cl ht
+    refine ⟨?_, ?_, ?_⟩
+    · intro p hp hsd
+      rcases ctrans_cstep ht with ⟨hq, _⟩ | ⟨_, hq, _⟩ | ⟨cmd, hsend, hq, _⟩ | ⟨hsc, _, hq, _⟩
+      · rw [hq] at hp; exact hmono (hi.queue p hp hsd)
+      · rw [hq] at hp; exact hmono (hi.queue p hp hsd)
+      · rw [hq] at hp
+        rcases List.mem_append.mp hp with hp | hp
+        · exact hmono (hi.queue p hp hsd)
+        · simp only [List.mem_singleton] at hp; subst hp
+          simp only at hsd; subst hsd
+          exact absurd hsend (hi.noSend j)
+      · rw [hq] at hp
+        rcases List.mem_append.mp hp with hp | hp
+        · exact hmono (hi.queue p hp hsd)
+        · exact hmono (hb.shutFlag j _ hsc rfl)
+    · intro hw
+      rw [(ctrans_frame ht).1] at hw
+      exact hmono (hi.drain hw)
+    · intro j' hpc1
+      by_cases hj : j' = j
+      · subst hj
+        have hlt : j' < b.cl.length := lt_of_getElem?_some hpc
+        have hpc' : b'.cl[j']? = some pc' := by rw [hcl]; simp [hlt]
+        rw [hpc'] at hpc1
+        cases hpc1
+        have := (client_tags hs' hpc hpc').2.2 rfl
+        subst this
+        exact hi.noSend j' hpc
+      · rw [hcl, List.getElem?_set_ne (Ne.symm hj)] at hpc1
+        exact hi.noSend j' hpc1
+  | worker =>
+    have ht := workerAct_trans (show workerAct b o = .ok (b', o') from hs)
+    obtain ⟨hq, _⟩ := wtrans_prov ht
+    refine ⟨fun p hp hsd => hmono (hi.queue p (hq p hp) hsd), ?_, by rw [(wtrans_cl ht).1]; exact hi.noSend⟩
+    intro hw'
+    cases wtrans_wstep ht with
+    | take _ _ _ _ _ _ hb' => rw [hw'] at hb'; cases hb'
+    | takeShutdown hh q hq0 => exact hmono (hi.queue (.shutdown, hh) (by rw [hq0]; exact List.mem_cons_self) rfl)
+    | takeDrain _ _ _ _ _ hw => exact hmono (hi.drain hw)
+    | cont _ hb' => rw [hw'] at hb'; cases hb'
+    | complete _ _ hw => rw [hw] at hw'; cases hw'
+    | die _ hw => rw [hw] at hw'; cases hw'
+  | sweeper v =>
+    have ht := sweeperAct_trans (stepB_sweeper_inv hs)
+    obtain ⟨hw, hcl, hq, _⟩ := strans_frame ht
+    exact ⟨fun p hp hsd => hmono (hi.queue p (hq ▸ hp) hsd), fun h => hmono (hi.drain (hw ▸ h)),
+      by rw [hcl]; exact hi.noSend⟩
+  | consumer =>
+    obtain ⟨g', rfl, hg⟩ := stepB_consumer_inv hs
+    have hq : g'.queue = b.g.queue := by rw [hg]
+    exact ⟨fun p hp hsd => hmono (hi.queue p (by rw [← hq]; exact hp) hsd), fun h => hmono (hi.drain h), hi.noSend⟩
+  | advance d =>
+    rw [stepB_advance_inv hs]
+    exact ⟨hi.queue, hi.drain, hi.noSend⟩
+
+theorem shutQ_reach {cfg : Cfg} {now : Nat} {seeds : List Nat} {clients : Nat} {b : BState}
+    (h : Reach cfg now seeds clients b) : ShutQ b := by
+  induction h with
+  | init sm =>
+    refine ⟨by simp [BState.init, State.init], by simp [BState.init], ?_⟩
+    intro j h
+    have := List.mem_of_getElem? h
+    simp [BState.init] at this
+  | step hr hstep ih => exact shutQ_step (binv_reach hr) ih hstep
+
+/-- **In a reachable state of a running cache no `Shutdown` command waits and the worker is not draining.** -/
+theorem running_no_shutdown {cfg : Cfg} {now : Nat} {seeds : List Nat} {clients : Nat} {b0 : BState}
+    (hr : Reach cfg now seeds clients b0) (hrun0 : b0.g.shutting = false) :
+    (∀ p ∈ b0.g.queue, p.1 ≠ .shutdown) ∧ b0.w ≠ .drain := by
+  have hq := shutQ_reach hr
+  constructor
+  · intro p hp e
+    rw [hq.queue p hp e] at hrun0; cases hrun0
+  · intro e
+    rw [hq.drain e] at hrun0; cases hrun0
+
+/-! ## 16  a call that returns a pending acknowledgement has sent its command -/
+
+/-- the tail of `put_or_update` never returns a PENDING acknowledgement (it answers on the spot, panics, or goes on) -/
+theorem upAfter_ack {b0 b : BState} {i id hh : Nat} {uw : Option Int} (hres0 : b0.res = b.res)
+    (hidle : (upAfterIndex b0 i id uw).cl[i]? = some .idle)
+    (hres : (upAfterIndex b0 i id uw).res[i]? = some (.ack hh .pending :: b.res.getD i [])) : False := by
+  unfold upAfterIndex at hidle hres
+  split at hres
+  · split at hres
+    · simp only [finishCall, hres0] at hres; have := res_set_head hres; cases this
+    · split at hres
+      · simp only [finishCall, hres0] at hres; have := res_set_head hres; cases this
+      · rename_i h1 h2
+        simp only [h1, h2, if_false] at hidle
+        have := pc_of_set hidle; cases this
+  · simp only [spotFinish, finishCall, hres0] at hres; have := res_set_head hres; cases this
+
+/-- a multi-key read never returns an acknowledgement -/
+theorem mgetNext_ack {b0 b : BState} {i hh : Nat} {ks : List Nat} {acc : List (Option Nat)} {iter : Bool}
+    (hres0 : b0.res = b.res) (hidle : (mgetNext b0 i ks acc iter).cl[i]? = some .idle)
+    (hres : (mgetNext b0 i ks acc iter).res[i]? = some (.ack hh .pending :: b.res.getD i [])) : False := by
+  obtain ⟨pad, e⟩ := mgetNext_idle hidle
+  rw [e] at hres
+  simp only [finishCall, hres0] at hres
+  have := res_set_head hres; cases this
+
+set_option hygiene false in
+macro "ack_leaf" : tactic => `(tactic| first
+  | (exfalso; have := pc_of_set hidle; cases this; done)
+  | (exfalso; have := res_set_head hres; cases this; done)
+  | (exfalso; exact upAfter_ack rfl hidle hres)
+  | (exfalso; exact mgetNext_ack rfl hidle hres))
+
+set_option hygiene false in
+macro "ack_pos" : tactic => `(tactic| (
+  try simp only [] at hs
+  repeat' split at hs
+  all_goals first
+    | (cases hs; done)
+    | (simp only [Except.ok.injEq, Prod.mk.injEq] at hs; obtain ⟨rfl, rfl⟩ := hs; ack_leaf)))
+
+/-- **A call that returns a PENDING acknowledgement returned from `cmd.send`**: the action is the client's `cmd.send`, the
+    handle is the next free cell, and the command went to the tail of the queue with that handle. -/
+theorem ret_ack_pending {b b' : BState} {i hh : Nat} {o o' : Oracle} (hs : clientAct b i o = .ok (b', o'))
+    (hidle : b'.cl[i]? = some .idle) (hres : b'.res[i]? = some (.ack hh .pending :: b.res.getD i [])) :
+    ∃ cmd, b.cl[i]? = some (.send cmd) ∧ hh = b.g.acks.length ∧ b'.g.queue = b.g.queue ++ [(cmd, some hh)] ∧
+      b'.g.acks = b.g.acks ++ [.pending] := by
+  unfold clientAct at hs
+  simp only [] at hs
+  split at hs
+  · cases hs
+  · rename_i pc hpc
+    cases pc with
+    | idle => cases hs
+    | start r =>
+      simp only [] at hs
+      split at hs
+      · cases r <;> simp only [Except.ok.injEq, Prod.mk.injEq] at hs <;> obtain ⟨rfl, rfl⟩ := hs <;> ack_leaf
+      · cases r <;> simp only [] at hs
+        case putW k v w ttl =>
+          split at hs
+          all_goals simp only [Except.ok.injEq, Prod.mk.injEq] at hs; obtain ⟨rfl, rfl⟩ := hs
+          all_goals ack_leaf
+        all_goals simp only [Except.ok.injEq, Prod.mk.injEq] at hs; obtain ⟨rfl, rfl⟩ := hs
+        all_goals ack_leaf
+    | send cmd =>
+      simp only [] at hs
+      split at hs
+      · rename_i b1 hsend
+        simp only [Except.ok.injEq, Prod.mk.injEq] at hs; obtain ⟨rfl, rfl⟩ := hs
+        unfold sendAct at hsend
+        simp only [] at hsend
+        split at hsend
+        · simp only [Except.ok.injEq] at hsend; subst hsend
+          exfalso; have := res_set_head hres; cases this
+        · split at hsend
+          · cases hsend
+          · simp only [Except.ok.injEq] at hsend; subst hsend
+            have := res_set_head hres
+            simp only [Out.ack.injEq, and_true] at this
+            subst this
+            exact ⟨cmd, hpc, rfl, rfl, rfl⟩
+      · cases hs
+    | idNext k v w ttl => cases ttl <;> ack_pos
+    | upWeightOf id uw old new =>
+      simp only [] at hs
+      split at hs
+      all_goals simp only [Except.ok.injEq, Prod.mk.injEq] at hs; obtain ⟨rfl, rfl⟩ := hs
+      all_goals ack_leaf
+    | getPool k v =>
+      simp only [] at hs
+      split at hs
+      · simp only [Except.ok.injEq, Prod.mk.injEq] at hs; obtain ⟨rfl, rfl⟩ := hs; ack_leaf
+      · cases hs
+    | refPool k v =>
+      simp only [] at hs
+      split at hs
+      · simp only [Except.ok.injEq, Prod.mk.injEq] at hs; obtain ⟨rfl, rfl⟩ := hs; ack_leaf
+      · cases hs
+    | mgetPool k v ks acc iter =>
+      simp only [] at hs
+      split at hs
+      · simp only [Except.ok.injEq, Prod.mk.injEq] at hs; obtain ⟨rfl, rfl⟩ := hs; ack_leaf
+      · cases hs
+    | _ => ack_pos
+
+/-! ## 17  the queue is sorted by handle; a pending handle waits, is held, or was dropped by the dying worker -/
+
+/-- the handles waiting in the queue are strictly increasing from head to tail -/
+def QSorted (b : BState) : Prop := (qHandles b.g.queue).Pairwise (· < ·)
+
+theorem qsorted_step {b b' : BState} {a : Act} {o o' : Oracle} (hi : HInv b) (hq : QSorted b)
+    (hs : stepB b a o = .ok (b', o')) : QSorted b' := by
+  unfold QSorted at hq ⊢
+  have tl : ∀ {cmd : Cmd} {hh : Option Nat} {q : List (Cmd × Option Nat)}, b.g.queue = (cmd, hh) :: q → b'.g.queue = q →
+      (qHandles b'.g.queue).Pairwise (· < ·) := by
+    intro cmd hh q e e'
+    rw [e, qHandles_cons] at hq
+    rw [e']
+    exact (List.pairwise_append.mp hq).2.1
+  cases stepB_bstep hs with
+  | worker _ hw =>
+    cases hw with
+    | take cmd hh q e e' => exact tl e e'
+    | takeShutdown hh q e e' => exact tl e e'
+    | takeDrain cmd hh q e e' => exact tl e e'
+    | cont _ _ _ e => rw [e]; exact hq
+    | complete _ _ _ e => rw [e]; exact hq
+    | die _ _ e => rw [e]; exact List.Pairwise.nil
+  | client i _ _ hc _ =>
+    cases hc with
+    | none e => rw [e]; exact hq
+    | spot _ e => rw [e]; exact hq
+    | send cmd _ e =>
+      rw [e, qHandles_append_one]
+      refine List.pairwise_append.mpr ⟨hq, by simp, ?_⟩
+      intro x hx y hy
+      simp only [Option.toList_some, List.mem_singleton] at hy
+      subst hy
+      exact hi.lt_queued hx
+    | sendShutdown _ _ e => rw [e, qHandles_append_one]; simpa using hq
+  | other _ _ e => rw [e]; exact hq
+
+theorem qsorted_reach {cfg : Cfg} {now : Nat} {seeds : List Nat} {clients : Nat} {b : BState}
+    (h : Reach cfg now seeds clients b) : QSorted b := by
+  induction h with
+  | init sm => simp [QSorted, BState.init, State.init, qHandles]
+  | step hr hstep ih => exact qsorted_step (hinv_reach hr) ih hstep
+
+/-- the life of ONE enqueued command (handle `hh`): it waits in the queue, or the worker is executing it, or it is
+    answered — or the worker has died (then it is never executed and stays pending: findings D8 / D9) -/
+def LifeOf (hh : Nat) (b : BState) : Prop :=
+  hh ∈ qHandles b.g.queue ∨ b.w.held = some hh ∨ Answered b hh ∨ b.w = .dead
+
+theorem lifeOf_step {hh : Nat} {b b' : BState} {a : Act} {o o' : Oracle} (hi : HInv b) (hl : LifeOf hh b)
+    (hs : stepB b a o = .ok (b', o')) : LifeOf hh b' := by
+  rcases hl with hq | hheld | hans | hdead
+  · -- waiting
+    have hlt := hi.lt_queued hq
+    cases stepB_bstep hs with
+    | worker _ hw =>
+      have tk : ∀ {cmd : Cmd} {x : Option Nat} {q : List (Cmd × Option Nat)}, b.g.queue = (cmd, x) :: q →
+          b'.g.queue = q → x = some hh ∨ hh ∈ qHandles b'.g.queue := by
+        intro cmd x q e e'
+        rw [e, qHandles_cons] at hq
+        rcases List.mem_append.mp hq with h | h
+        · left
+          cases x with
+          | none => simp at h
+          | some y => simp only [Option.toList_some, List.mem_singleton] at h; rw [h]
+        · right; rw [e']; exact h
+      cases hw with
+      | take cmd x q e e' _ _ hheld' =>
+        rcases tk e e' with h | h
+        · exact Or.inr (Or.inl (by rw [hheld', h]))
+        · exact Or.inl h
+      | takeShutdown x q e e' _ _ hacks =>
+        rcases tk e e' with h | h
+        · exact Or.inr (Or.inr (Or.inl ⟨.accepted, by rw [hacks, h]; exact setAck_get_self _ _ hlt, by simp⟩))
+        · exact Or.inl h
+      | takeDrain cmd x q e e' _ _ hacks =>
+        rcases tk e e' with h | h
+        · exact Or.inr (Or.inr (Or.inl ⟨.shuttingDown, by rw [hacks, h]; exact setAck_get_self _ _ hlt, by simp⟩))
+        · exact Or.inl h
+      | cont _ _ _ e => exact Or.inl (by rw [e]; exact hq)
+      | complete _ _ _ e => exact Or.inl (by rw [e]; exact hq)
+      | die _ hw' => exact Or.inr (Or.inr (Or.inr hw'))
+    | client i _ _ hc _ =>
+      cases hc with
+      | none e => exact Or.inl (by rw [e]; exact hq)
+      | spot _ e => exact Or.inl (by rw [e]; exact hq)
+      | send cmd _ e => exact Or.inl (by rw [e, qHandles_append_one]; exact List.mem_append_left _ hq)
+      | sendShutdown _ _ e => exact Or.inl (by rw [e, qHandles_append_one]; exact List.mem_append_left _ hq)
+    | other _ _ e => exact Or.inl (by rw [e]; exact hq)
+  · -- being executed
+    have hlt := hi.lt_held hheld
+    cases stepB_bstep hs with
+    | worker _ hw =>
+      cases hw with
+      | take _ _ _ _ _ hw0 => rw [hw0] at hheld; cases hheld
+      | takeShutdown _ _ _ _ hw0 => rw [hw0] at hheld; cases hheld
+      | takeDrain _ _ _ _ _ hw0 => rw [hw0] at hheld; cases hheld
+      | cont _ _ hh' => exact Or.inr (Or.inl (by rw [hh']; exact hheld))
+      | complete st _ _ _ hne hacks =>
+        exact Or.inr (Or.inr (Or.inl ⟨st, by rw [hacks, hheld]; exact setAck_get_self _ _ hlt, hne⟩))
+      | die _ hw' => exact Or.inr (Or.inr (Or.inr hw'))
+    | client i _ hw _ _ => exact Or.inr (Or.inl (by rw [hw]; exact hheld))
+    | other _ hw _ _ => exact Or.inr (Or.inl (by rw [hw]; exact hheld))
+  · exact Or.inr (Or.inr (Or.inl (answered_step hi hs hans)))
+  · exact Or.inr (Or.inr (Or.inr (dead_step hs hdead)))
+
+/-- **Per-client order, the step.**  `hA < hB` two handles, `hA` an enqueued command's (`LifeOf`): as long as `hA` is
+    not answered, `hB` is neither held by the worker nor answered.  One action keeps this, provided `hB` is a cell. -/
+def Before (hA hB : Nat) (b : BState) : Prop :=
+  Answered b hA ∨ (b.g.acks[hB]? = some .pending ∧ b.w.held ≠ some hB)
+
+theorem before_step {hA hB : Nat} {b b' : BState} {a : Act} {o o' : Oracle} (hlt : hA < hB) (hi : HInv b)
+    (hq : QSorted b) (hl : LifeOf hA b) (hbf : Before hA hB b) (hs : stepB b a o = .ok (b', o')) :
+    Before hA hB b' := by
+  rcases hbf with hans | ⟨hp, hnh⟩
+  · exact Or.inl (answered_step hi hs hans)
+  · by_cases hansA : Answered b hA
+    · exact Or.inl (answered_step hi hs hansA)
+    -- `hA` is not answered: it waits (the worker not dead, not holding it — see below), so `hB` is not the head
+    have hBlt : hB < b.g.acks.length := lt_of_getElem?_some hp
+    have keep : b'.w.held ≠ some hB → b'.g.acks[hB]? = some .pending ∨ Answered b' hA →
+        Before hA hB b' := by
+      intro h1 h2
+      rcases h2 with h2 | h2
+      · exact Or.inr ⟨h2, h1⟩
+      · exact Or.inl h2
+    cases stepB_bstep hs with
+    | worker _ hw =>
+      -- the head of the queue is not `hB` while `hA` waits
+      have head_ne : ∀ {cmd : Cmd} {x : Option Nat} {q : List (Cmd × Option Nat)}, b.g.queue = (cmd, x) :: q →
+          (b.w = .recv ∨ b.w = .drain) → x ≠ some hB := by
+        intro cmd x q e hw0 ex
+        rcases hl with h | h | h | h
+        · rw [e, qHandles_cons, ex] at h
+          unfold QSorted at hq
+          rw [e, qHandles_cons, ex] at hq
+          simp only [Option.toList_some, List.singleton_append, List.mem_cons] at h
+          rcases h with h | h
+          · omega
+          · have := (List.pairwise_cons.mp hq).1 hA h; omega
+        · rcases hw0 with hw0 | hw0 <;> rw [hw0] at h <;> cases h
+        · exact hansA h
+        · rcases hw0 with hw0 | hw0 <;> rw [hw0] at h <;> cases h
+      cases hw with
+      | take cmd x q e e' hw0 _ hheld' hacks =>
+        exact Or.inr ⟨by rw [hacks]; exact hp, by rw [hheld']; exact head_ne e (Or.inl hw0)⟩
+      | takeShutdown x q e e' hw0 hw' hacks =>
+        refine Or.inr ⟨?_, by rw [hw']; simp [WPc.held]⟩
+        rw [hacks, setAck_get_ne _ _ (head_ne e (Or.inl hw0))]; exact hp
+      | takeDrain cmd x q e e' hw0 hw' hacks =>
+        refine Or.inr ⟨?_, by rw [hw']; simp [WPc.held]⟩
+        rw [hacks, setAck_get_ne _ _ (head_ne e (Or.inr hw0))]; exact hp
+      | cont _ _ hheld' _ hacks => exact Or.inr ⟨by rw [hacks]; exact hp, by rw [hheld']; exact hnh⟩
+      | complete st _ hw' _ _ hacks =>
+        refine Or.inr ⟨?_, by rw [hw']; simp [WPc.held]⟩
+        rw [hacks, setAck_get_ne _ _ hnh]; exact hp
+      | die _ hw' _ hacks => exact Or.inr ⟨by rw [hacks]; exact hp, by rw [hw']; simp [WPc.held]⟩
+    | client i _ hw hc _ =>
+      refine Or.inr ⟨?_, by rw [hw]; exact hnh⟩
+      cases hc with
+      | none _ hacks => rw [hacks]; exact hp
+      | spot _ _ hacks => rw [hacks]; exact getElem?_append_some _ hp
+      | send _ _ _ hacks => rw [hacks]; exact getElem?_append_some _ hp
+      | sendShutdown _ _ _ hacks => rw [hacks]; exact hp
+    | other _ hw _ hacks => exact Or.inr ⟨by rw [hacks]; exact hp, by rw [hw]; exact hnh⟩
+
+/-- the acknowledgement cells only grow along a run -/
+theorem acks_mono {cfg : Cfg} {now : Nat} {seeds : List Nat} {clients : Nat} {b0 b : BState}
+    {h : List (BState × Act)} (hr0 : Reach cfg now seeds clients b0) (hrun : RunH b0 h b) {m : Nat} {s : BState}
+    (hst : StateAt h b m s) : ∀ (d : Nat) (s' : BState), StateAt h b (m + d) s' → s.g.acks.length ≤ s'.g.acks.length := by
+  intro d
+  induction d with
+  | zero => intro s' hst'; rw [hst.inj hst']; exact Nat.le_refl _
+  | succ d ih =>
+    intro s' hst'
+    obtain ⟨s1, a, o, o', hx, hstep⟩ := stateAt_succ hrun (m := m + d) hst'
+    have h1 := ih s1 (Or.inr ⟨a, hx⟩)
+    have h2 := (C11_layerB_acks_grow (hinv_reach (stateAt_reach hr0 hrun (Or.inr ⟨a, hx⟩))) hstep).1
+    omega
 
 end PD
 end B
